@@ -194,6 +194,31 @@ impl World {
                 }
             }
             let mut unmaps: Vec<(usize, usize)> = log.iter().filter_map(|e| if let Ev::Munmap { addr, len, ret: 0, .. } = e { Some((*addr, *len)) } else { None }).collect();
+            // a mapping made during this step that no created region owns (failed or abandoned
+            // construction) must have been released again, with its exact extent, within the step
+            for e in log {
+                if let Ev::Mmap { ret, len, errno: 0, .. } = e {
+                    if created.iter().any(|id| self.regs[id].addr == *ret) {
+                        continue;
+                    }
+                    match unmaps.iter().position(|(a, _)| a == ret) {
+                        Some(p) => {
+                            let (_, l) = unmaps.remove(p);
+                            if l != *len {
+                                v("ownerless-mapping-released-with-wrong-length", jobj! {"step" => step, "addr" => *ret, "mapped_len" => *len, "munmap_len" => l});
+                                ok = false;
+                            }
+                            out::count("ownerless_mappings_released", 1);
+                        }
+                        None => {
+                            v("mapping-without-owner-left-behind", jobj! {"step" => step, "addr" => *ret, "len" => *len, "trace" => self.trace.clone()});
+                            ok = false;
+                            // release it so that later steps are judged on their own
+                            unsafe { libc::munmap(*ret as *mut _, *len) };
+                        }
+                    }
+                }
+            }
             for id in &died {
                 let ri = self.regs[id].clone();
                 if ri.kind == RKind::Raw {
@@ -487,6 +512,98 @@ fn finish(w: &mut World) {
     }
 }
 
+/// Requests that must be refused. Whatever they mapped on the way has no owner afterwards and
+/// must be gone when the call returns (judged by `settle`: mmaps of the step == munmaps of the step).
+const FAILING: usize = 9;
+fn failing_construction(w: &mut World, which: usize, r: &mut Rng) -> String {
+    let len = *r.pick(&[1usize, 100, 4096, 4097, 12288]);
+    let base = w.next_start;
+    w.next_start += 0x10_0000;
+    let anon = |len: usize, start: u64| -> Reg {
+        #[cfg(not(feature = "xen"))]
+        let reg = MmapRegion::<()>::new(len).unwrap();
+        #[cfg(feature = "xen")]
+        let reg = MmapRegion::<()>::from_range(vm_memory::MmapRange::new_unix(len, None, GuestAddress(start))).unwrap();
+        GuestRegionMmap::new(reg, GuestAddress(start)).unwrap()
+    };
+    let file_req = |w: &mut World, flen: u64, off: u64, size: usize| -> bool {
+        let (f, path) = named_temp_file("c12f", flen);
+        w.files.push(path);
+        let fo = FileOffset::new(f, off);
+        #[cfg(not(feature = "xen"))]
+        let res = MmapRegion::<()>::from_file(fo, size);
+        #[cfg(feature = "xen")]
+        let res = MmapRegion::<()>::from_range(vm_memory::MmapRange::new_unix(size, Some(fo), GuestAddress(0x1000)));
+        res.is_err()
+    };
+    let (name, refused): (&str, bool) = match which % FAILING {
+        0 if !cfg!(miri) => {
+            // file range ends past the end of the file (by 1 byte .. several pages)
+            let flen = *r.pick(&[0u64, 1, 4095, 4096, 8192]);
+            let off = 4096 * r.below(3);
+            let size = (flen.saturating_sub(off) + *r.pick(&[1u64, 2, 4096, 65536])) as usize;
+            ("file-range-past-eof", file_req(w, flen, off, size))
+        }
+        1 if !cfg!(miri) => ("file-offset-overflow", file_req(w, 8192, u64::MAX - r.below(4096), 4096 + len)),
+        2 if !cfg!(miri) => ("file-offset-unaligned", file_req(w, 65536, 1 + r.below(4095), len)),
+        #[cfg(not(feature = "xen"))]
+        3 if !cfg!(miri) => {
+            let res = vm_memory::mmap::MmapRegionBuilder::<()>::new(len)
+                .with_mmap_prot(libc::PROT_READ | libc::PROT_WRITE)
+                .with_mmap_flags(libc::MAP_ANONYMOUS | libc::MAP_PRIVATE | libc::MAP_FIXED)
+                .build();
+            ("map-fixed", res.is_err())
+        }
+        4 => {
+            // guest base + size beyond the address space: the (already mapped) region is consumed
+            #[cfg(not(feature = "xen"))]
+            let reg = MmapRegion::<()>::new(len).unwrap();
+            #[cfg(feature = "xen")]
+            let reg = MmapRegion::<()>::from_range(vm_memory::MmapRange::new_unix(len, None, GuestAddress(0))).unwrap();
+            let res = GuestRegionMmap::new(reg, GuestAddress(u64::MAX - (len as u64 - 1) + r.below(len as u64).min(3)));
+            ("guest-base-overflow", res.is_err())
+        }
+        5 => {
+            // overlapping ranges: every range mapped before the refusal must be released
+            let n = 2 + r.usize_below(3);
+            let mut ranges: Vec<(GuestAddress, usize)> = (0..n).map(|i| (GuestAddress(base + i as u64 * 0x1_0000), len)).collect();
+            let dup = r.usize_below(n - 1);
+            ranges[n - 1].0 = GuestAddress(ranges[dup].0 .0 + r.below(len as u64));
+            ("from_ranges-overlap", Map::from_ranges(&ranges).is_err())
+        }
+        6 => {
+            let a = anon(len, base);
+            let b = anon(len, base + r.below(len as u64));
+            let c = anon(len, base + 0x2_0000);
+            ("from_regions-overlap", Map::from_regions(vec![a, c, b]).is_err())
+        }
+        7 if !cfg!(miri) && interpose::available() => {
+            // the k-th mmap of a multi-range construction fails (ENOMEM injected)
+            let n = 2 + r.usize_below(3);
+            let ranges: Vec<(GuestAddress, usize)> = (0..n).map(|i| (GuestAddress(base + i as u64 * 0x1_0000), len)).collect();
+            let k = r.below(n as u64);
+            interpose::fail_mmap_after(k);
+            let res = Map::from_ranges(&ranges);
+            interpose::fail_mmap_after(u64::MAX);
+            ("from_ranges-kth-mmap-fails", res.is_err())
+        }
+        _ => {
+            // insert_region of an overlapping region: the refused Arc is the last reference
+            let m = Map::from_regions(vec![anon(len, base), anon(len, base + 0x2_0000)]).unwrap();
+            let bad = Arc::new(anon(len, base + 0x2_0000 + r.below(len as u64)));
+            let refused = m.insert_region(bad).is_err();
+            drop(m);
+            ("insert_region-overlap", refused)
+        }
+    };
+    if !refused {
+        // accepting it is C15's / C10's business; here only the mapping balance is judged
+        out::note("C12/request-expected-to-fail-was-accepted", jobj! {"kind" => name});
+    }
+    out::count("failing_constructions", 1);
+    format!("failing construction {}", name)
+}
+
 fn random_sequence(case: u64, args: &Args) {
     let mut r = Rng::new(args.seed(), "c12", case);
     let mut w = World::new();
@@ -502,7 +619,19 @@ fn random_sequence(case: u64, args: &Args) {
                 Some(*r.pick(&c))
             }
         };
-        let ok = if k < 20 || nown == 0 {
+        let ok = if k < 8 {
+            let which = r.usize_below(FAILING);
+            let mut name = String::new();
+            let ok = w.step("failing construction", |w| {
+                name = failing_construction(w, which, &mut r);
+                vec![]
+            });
+            if let Some(t) = w.trace.last_mut() {
+                *t = name.clone();
+            }
+            out::key(&format!("{}|{}", name, if ok { "balanced" } else { "unbalanced" }), true);
+            ok
+        } else if k < 24 || nown == 0 {
             w.step("create regions -> map", |w| {
                 let n = 1 + r.usize_below(3);
                 let mut regs = vec![];
@@ -630,6 +759,27 @@ pub fn run(args: &Args) {
     if args.shard().0 == 0 && !args.flag("noenum") {
         if let Err(p) = guarded(|| enumerate_drop_orders(args)) {
             v(&format!("panic/enumeration/{}", panic_sig(&p)), J::s(p));
+        }
+    }
+    if args.shard().0 == 0 && !args.flag("noenum") {
+        // every failing-construction kind, several draws each, on an otherwise empty world
+        let r0 = guarded(|| {
+            for which in 0..FAILING {
+                for rep in 0..(if cfg!(miri) { 1 } else { 12 }) {
+                    let mut r = Rng::new(args.seed(), "c12-failing", (which * 100 + rep) as u64);
+                    let mut w = World::new();
+                    let mut name = String::new();
+                    let ok = w.step("failing construction", |w| {
+                        name = failing_construction(w, which, &mut r);
+                        vec![]
+                    });
+                    out::key(&format!("{}|{}", name, if ok { "balanced" } else { "unbalanced" }), true);
+                    finish(&mut w);
+                }
+            }
+        });
+        if let Err(p) = r0 {
+            v(&format!("panic/failing-constructions/{}", panic_sig(&p)), J::s(p));
         }
     }
     for case in args.cases(300) {
